@@ -405,15 +405,19 @@ class ConnectedRemotePeer(RemotePeer):
                         item.block_requested = True
                         self.send_message(GetDataMessage(DATA_BLOCK, item.hash), prev_header=msg_state.header)
 
-    def remove_from_inventory(self, hash: bytes) -> None:
+    def remove_from_inventory(self, hash: bytes) -> bool:
+        """Returns whether the hash was part of this peer's inventory and we had asked the peer for that block."""
+        requested = False
         for i, msg_state in enumerate(self.inventory_messages):
             for j, item in enumerate(msg_state.message.items):
                 if item.hash == hash:
+                    requested = requested or item.block_requested
                     del msg_state.message.items[j]
                     break
             if len(msg_state.message.items) == 0:
                 del self.inventory_messages[i]
                 break
+        return requested
 
     def handle_get_data_message_received(
         self, header: MessageHeader, get_data_message: GetDataMessage
@@ -457,7 +461,7 @@ class ConnectedRemotePeer(RemotePeer):
         coinstate_prior = self.local_peer.chain_manager.coinstate
 
         block_hash = block.hash()
-        self.remove_from_inventory(block_hash)
+        requested = self.remove_from_inventory(block_hash)
 
         if block_hash not in coinstate_prior.block_by_hash:
 
@@ -490,13 +494,15 @@ class ConnectedRemotePeer(RemotePeer):
             coinstate_changed = coinstate_prior.add_block_no_validation(block)
             self.local_peer.disk_interface.save_block(block)
 
-            if header.in_response_to == 0 or block.height % IBD_VALIDATION_SKIP == 0:
+            if header.in_response_to == 0 or not requested or block.height % IBD_VALIDATION_SKIP == 0:
                 # Validation is very slow, and we don't have to validate every block in a blockchain, so
                 # during IBD, we only validate every Nth block where N := IBD_VALIDATION_SKIP.
                 # Because the BLOCKS are part of a CHAIN of hashes, every valid block[n] guarantees a valid
                 # block[n-1]. Just to keep things clean, we avoid writing unvalidated blocks to disk until
                 # their next "validated descendent" is encountered (this is unnecessary, but neat).
-                # During normal operation (non-IBD) we just validate every block because we're not in a hurry.
+                # During normal operation (non-IBD) we just validate every block because we're not in a hurry. A block
+                # that claims to be a response but that we never asked this peer for is not part of any download of ours:
+                # it is validated like any other unsolicited block.
                 try:
                     validate_block_in_coinstate(block, coinstate_prior)  # very slow
 
